@@ -691,6 +691,61 @@ func c15BranchBody(s *source, fd *ast.FuncDecl, prefix string) []string {
 	return out
 }
 
+// ---- round 5e: delegating wrappers as functions --------------------------------------------------------------------
+
+// c15DelegStmts rewrites the body of a delegating wrapper into integer code: the call `callee(node, X)` becomes
+// `return X` (the forwarded argument), a bare `return` (the wrapper gives up WITHOUT delegating) becomes
+// `return noCall`; everything else (assignments, if-chains) is kept for the translator.
+func c15DelegStmts(s *source, list []ast.Stmt, callee string, argIdx int, noCall string) []ast.Stmt {
+	var out []ast.Stmt
+	for _, st := range list {
+		switch x := st.(type) {
+		case *ast.ExprStmt:
+			if c, ok := x.X.(*ast.CallExpr); ok && s.src(c.Fun) == callee && len(c.Args) > argIdx {
+				out = append(out, &ast.ReturnStmt{Results: []ast.Expr{c.Args[argIdx]}})
+				continue
+			}
+			out = append(out, st)
+		case *ast.ReturnStmt:
+			if len(x.Results) == 0 {
+				out = append(out, &ast.ReturnStmt{Results: []ast.Expr{&ast.UnaryExpr{Op: token.SUB, X: &ast.BasicLit{Kind: token.INT, Value: noCall}}}})
+				continue
+			}
+			out = append(out, st)
+		case *ast.IfStmt:
+			n := &ast.IfStmt{Init: x.Init, Cond: x.Cond, Body: &ast.BlockStmt{List: c15DelegStmts(s, x.Body.List, callee, argIdx, noCall)}}
+			if b, ok := x.Else.(*ast.BlockStmt); ok {
+				n.Else = &ast.BlockStmt{List: c15DelegStmts(s, b.List, callee, argIdx, noCall)}
+			} else if x.Else != nil {
+				n.Else = x.Else
+			}
+			out = append(out, n)
+		default:
+			out = append(out, st)
+		}
+	}
+	return out
+}
+
+// c15Deleg emits `def <leanName> (params…) : Int`: the argument the wrapper hands to callee, or -noCall when it returns
+// without calling it, for all arguments.
+func (e *emitter) c15Deleg(t *translator, s *source, rel, goName, callee string, argIdx int, leanName string, params []string) {
+	fd := s.findFunc(rel, goName)
+	if fd == nil {
+		e.errors = append(e.errors, "function "+goName+" not found")
+		e.printf("def %s : Unit := ()\n\n", leanName)
+		return
+	}
+	body := c15DelegStmts(s, fd.Body.List, callee, argIdx, "4611686018427387904")
+	// a wrapper that falls off its end without delegating does not delegate either
+	syn := c15Synth(leanName, params, body, &ast.UnaryExpr{Op: token.SUB, X: &ast.BasicLit{Kind: token.INT, Value: "4611686018427387904"}})
+	def, err := t.translateFunc(syn, leanName, leanName, false, 0, nil)
+	if err != nil {
+		e.errors = append(e.errors, leanName+": "+err.Error())
+	}
+	e.printf("/-- `%s` as a function: argument %d of its call of `%s` (-2^62: returns without the call) -/\n%s\n", goName, argIdx, callee, def)
+}
+
 func init() {
 	register("C15", func(s *source, e *emitter) {
 		const f = "core/hash/consistenthash.go"
@@ -748,6 +803,9 @@ func init() {
 		e.shapeDef(s, "core/stores/cache/util.go", "TotalWeights", "totalWeightsShape")
 		// decision conditions on the property's path, as Lean functions
 		e.c15Conditions(t, s)
+		// round 5e: the delegating wrappers of the ring as functions of their arguments
+		e.c15Deleg(t, s, f, "ConsistentHash.AddWithWeight", "h.AddWithReplicas", 1, "addWithWeightCall", []string{"weight"})
+		e.c15Deleg(t, s, f, "ConsistentHash.Add", "h.AddWithReplicas", 1, "addCall", []string{})
 		// round 5: TotalWeights as arithmetic, the branches of the constructors, every entry point with its parameters
 		e.c15TotalWeightsStep(t, s)
 		e.stringList("cacheFatalBranch", "cache.New: what happens without nodes / weights", c15BranchBody(s, s.findFunc("core/stores/cache/cache.go", "New"), "len(c) == 0"))
